@@ -225,7 +225,10 @@ def run(ctx):
         for _ in range(3):
             variants.append(([join(render(toks, rng, "mix"))], "mix"))
         if ctx.tier == "quick" and len(variants) > 14:
-            variants = variants[:3] + rng.sample(variants[3:], 11)
+            # every keyword's case variant stays (group, by, where, order, from, the root options ...); the rest is sampled
+            kwcase = [v for v in variants[3:] if v[1].startswith("case:") and v[1][5:] in ("group", "by", "order", "where", "from", "limit", "into", "and", "or", "between", "depth", "mindepth", "sym", "arc", "dfs", "bfs", "desc")]
+            rest = [v for v in variants[3:] if v not in kwcase]
+            variants = variants[:3] + kwcase + rng.sample(rest, min(len(rest), 9))
         for v, d in variants:
             cases.append(([canon], v, d))
     # parsed query: real parser through the harness
